@@ -181,8 +181,9 @@ def k_dump_pre(perm: int, extra_ignore: bool, extra_pos: int):
 class _RecGzip:
     calls = []
 
-    def __init__(self, **kw):
-        _RecGzip.calls.append(kw)
+    def __init__(self, filename=None, mode=None, compresslevel=9, fileobj=None, mtime=None):
+        _RecGzip.calls.append({'filename': filename, 'mode': mode, 'fileobj': fileobj,
+                               'mtime': mtime})
 
 
 def k_gzip_header(write: bool):
